@@ -1,6 +1,7 @@
 package main
 
 import (
+	"context"
 	"fmt"
 	"strings"
 
@@ -88,6 +89,10 @@ func runC05(c *mon.Ctx) {
 	id := gen.NewIdentity(c.RandShared("id"), "a.example", "ed25519:k1")
 	id2 := gen.NewIdentity(c.RandShared("id2"), "b.example:8448", "ed25519:other")
 	nBuilt := c.Scale(20, 2400)
+	ringDB := newMemKeyDB()
+	ringDB.set(id.Server, id.KeyID, id.Pub, farFuture, 0)
+	ringDB.set(id2.Server, id2.KeyID, id2.Pub, farFuture, 0)
+	ring := &gmsl.KeyRing{KeyDatabase: ringDB}
 	for _, ver := range versions {
 		t := ref.Traits(string(ver))
 		if t == nil {
@@ -147,8 +152,19 @@ func runC05(c *mon.Ctx) {
 						c.Failf("redact:roomid-panics", "RoomID() panics before redaction: %s", s)
 						return
 					}
+					verB := p.Version()
+					libOK := gmsl.VerifyEventSignatures(context.Background(), p, ring, userIDForSender) == nil
 					p.Redact()
 					c.Count("pdu_redactions")
+					if p.Version() != verB {
+						c.Failf("redact:room-version-lost", "Version() = %q after Redact(), was %q", p.Version(), verB)
+					}
+					if libOK {
+						c.Count("library_verified_before_and_after")
+						if err := gmsl.VerifyEventSignatures(context.Background(), p, ring, userIDForSender); err != nil {
+							c.Failf("redact:signature-invalidated:library", "VerifyEventSignatures passed on the event but fails on the same PDU after Redact() (v%s): %v", ver, err)
+						}
+					}
 					if !p.Redacted() {
 						c.Failf("redact:flag-not-set", "Redacted() false after Redact()")
 					}
